@@ -125,7 +125,9 @@ class _Died(BaseException):
 
 
 class Mirror2(Mirror):
-    def __init__(self):         # pylint: disable=super-init-not-called
+    def __init__(self, wd=False):         # pylint: disable=super-init-not-called
+        # wd: the inner level with watch_data=True, through the /endpoints callbacks of sproc/zk2fs.py
+        self.wd = wd
         from treadmill.zksync import zk2fs
         from treadmill.sproc import zk2fs as sproc_zk2fs
         from treadmill import utils
@@ -156,10 +158,11 @@ class Mirror2(Mirror):
         self.obj = obj = self._zk2fs.Zk2Fs(client, self.root, tmp)
         self.up = True
         sp = self._sproc
-        self._guard(lambda: (obj.sync_children(
-            PDIR, on_add=lambda p: sp._on_add_placement_server(obj, p),      # pylint: disable=protected-access
-            on_del=lambda p: sp._on_del_placement_server(obj, p)),           # pylint: disable=protected-access
-            obj.mark_ready()))
+        # pylint: disable=protected-access
+        add, rem = ((sp._on_add_endpoint_proid, sp._on_del_endpoint_proid) if self.wd
+                    else (sp._on_add_placement_server, sp._on_del_placement_server))
+        self._guard(lambda: (obj.sync_children(PDIR, on_add=lambda p: add(obj, p), on_del=lambda p: rem(obj, p)),
+                             obj.mark_ready()))
 
     def apply(self, ev):
         kind = ev[0]
@@ -169,6 +172,8 @@ class Mirror2(Mirror):
             self.env.delete('%s/%s' % (PDIR, ev[1]))
         elif kind == 'CreateInst':
             self.env.create('%s/%s/%s' % (PDIR, ev[1], ev[2]), b'v%d' % ev[3])
+        elif kind == 'SetInst':
+            self.env.set('%s/%s/%s' % (PDIR, ev[1], ev[2]), b'v%d' % ev[3])
         elif kind == 'DeleteInst':
             self.env.delete('%s/%s/%s' % (PDIR, ev[1], ev[2]))
         elif kind == 'Deliver':
@@ -203,8 +208,8 @@ class Mirror2(Mirror):
         return dict(zs=zs, zi=zi, fd=fd, ff=ff, qlen=len(self.store.deferred), up=self.up)
 
 
-def record2(tid, hist):
-    m = Mirror2()
+def record2(tid, hist, wd=False):
+    m = Mirror2(wd)
     try:
         lines = [dict(ev='Init', s='', i='', v=0, post=m.project())]
         for ev in hist:
@@ -222,7 +227,7 @@ def from_labels2(labels):
         args = [json.loads(x) if isinstance(x, str) and x.startswith('"') else x for x in args]
         if a in ('CreateServer', 'DeleteServer'):
             hist.append((a, args[0]))
-        elif a == 'CreateInst':
+        elif a in ('CreateInst', 'SetInst'):
             hist.append((a, args[0], args[1], int(args[2])))
         elif a == 'DeleteInst':
             hist.append((a, args[0], args[1]))
@@ -231,7 +236,7 @@ def from_labels2(labels):
     return hist
 
 
-def gen_random2(rng, n, p_deliver=0.35, p_life=0.03):
+def gen_random2(rng, n, p_deliver=0.35, p_life=0.03, wd=False):
     zs = {s: False for s in SRV}
     zi = {s: {i: 0 for i in INS} for s in SRV}
     up, hist = True, []
@@ -258,7 +263,10 @@ def gen_random2(rng, n, p_deliver=0.35, p_life=0.03):
             hist.append(('DeleteServer', s))
         else:
             i = rng.choice(INS)
-            if zi[s][i]:
+            if zi[s][i] and wd and rng.random() < 0.5:
+                zi[s][i] = rng.choice([v for v in (1, 2, 3) if v != zi[s][i]])
+                hist.append(('SetInst', s, i, zi[s][i]))
+            elif zi[s][i]:
                 zi[s][i] = 0
                 hist.append(('DeleteInst', s, i))
             else:
@@ -284,33 +292,52 @@ def run_ext2(ctx):
     out['model_runs'].append(dict(name='zk2fs two levels', generated=res['generated'], distinct=res['distinct'],
                                   depth=res['depth'], complete=res['ok'],
                                   invariants=['InvDirs', 'InvBackedExact', 'InvArmed', 'InvFilesInDirs']))
+    wdres = tlc.mc(SPEC_DIR, 'ZkMirror2', 'MC_ZkMirror2_wd.cfg', workers=4 if ctx.quick else 12, coverage=False,
+                   heap='4g', timeout=150 if ctx.quick else 900)
+    ctx.cmds.append(wdres['cmd'])
+    if wdres['violated']:
+        raise tlc.MachineryError('ZkMirror2.tla (watch_data) violates its own invariant %s' % wdres['violated'])
+    out['model_runs'].append(dict(name='zk2fs two levels, inner watch_data (/endpoints)', generated=wdres['generated'],
+                                  distinct=wdres['distinct'], depth=wdres['depth'], complete=wdres['ok'],
+                                  invariants=['InvDirs', 'InvBackedNoExtra', 'InvBackedFresh', 'InvArmed', 'InvFilesInDirs']))
     hists = []
     for name, inv in (('backed', 'InvBacked'), ('complete', 'InvComplete'), ('extra', 'InvNoExtra'), ('death', 'InvNoDeath')):
         gap = tlc.mc(SPEC_DIR, 'ZkMirror2', 'MC_ZkMirror2_%s.cfg' % name, workers=2, coverage=False, heap='2g', timeout=120)
         out['model_gaps'].append(dict(invariant=inv, violated=bool(gap['violated']), steps=len(gap['cex'])))
         if gap['violated']:
             labels = [(a, tlc.tlaval.split_args(b)) for a, b in gap['cex'] if a not in ('Initial', 'Init')]
-            hists.append(('cex:' + name, from_labels2(labels)))
+            hists.append(('cex:' + name, False, from_labels2(labels)))
     text = '\n'.join(l for l in open(os.path.join(SPEC_DIR, 'MC_ZkMirror2.cfg')).read().splitlines()
                      if not l.startswith('INVARIANTS')).replace('MaxEnv = 6', 'MaxEnv = 9')
     bs, cmd = tlc.simulate(SPEC_DIR, 'ZkMirror2', 'MC_ZkMirror2_gen.cfg', num=60 if ctx.quick else 1500, depth=16,
                            seed=ctx.seed * 19 + 1, procs=1 if ctx.quick else 4, timeout=120 if ctx.quick else 600,
                            extra_files={'MC_ZkMirror2_gen.cfg': text})
     ctx.cmds.append(cmd)
-    hists += [('tlc', from_labels2(b)) for b in bs]
+    hists += [('tlc', False, from_labels2(b)) for b in bs]
+    wtext = '\n'.join(l for l in open(os.path.join(SPEC_DIR, 'MC_ZkMirror2_wd.cfg')).read().splitlines()
+                      if not l.startswith('INVARIANTS')).replace('MaxEnv = 6', 'MaxEnv = 9')
+    wbs, cmd = tlc.simulate(SPEC_DIR, 'ZkMirror2', 'MC_ZkMirror2_wdgen.cfg', num=50 if ctx.quick else 1500, depth=16,
+                            seed=ctx.seed * 23 + 2, procs=1 if ctx.quick else 4, timeout=120 if ctx.quick else 600,
+                            extra_files={'MC_ZkMirror2_wdgen.cfg': wtext})
+    ctx.cmds.append(cmd)
+    hists += [('tlc:wd', True, from_labels2(b)) for b in wbs]
     rng = random.Random(ctx.seed * 7001 + 13)
-    hists += [('rnd', gen_random2(rng, rng.choice([12, 25, 40]))) for _ in range(150 if ctx.quick else 4000)]
-    traces = [record2('y%d' % n, h) for n, (_src, h) in enumerate(hists)]
+    hists += [('rnd', False, gen_random2(rng, rng.choice([12, 25, 40]))) for _ in range(120 if ctx.quick else 3000)]
+    hists += [('rnd:wd', True, gen_random2(rng, rng.choice([12, 25, 40]), wd=True)) for _ in range(100 if ctx.quick else 3000)]
+    traces = [dict(record2('y%d' % n, h, wd), wd=wd) for n, (_src, wd, h) in enumerate(hists)]
     work = tlc.scratch('verif-zk2fs2-batch-')
+    verdicts = []
     try:
-        path = os.path.join(work, 'batch.json')
-        with open(path, 'w') as f:
-            json.dump(dict(traces=traces), f)
-        verdicts, stats = tlc.validate(SPEC_DIR, 'ZkMirror2Trace', 'ZkMirror2Trace.cfg', path,
-                                       timeout=300 if ctx.quick else 1500, heap='4g')
+        for wd, cfg in ((False, 'ZkMirror2Trace.cfg'), (True, 'ZkMirror2TraceWD.cfg')):
+            path = os.path.join(work, 'batch%d.json' % wd)
+            with open(path, 'w') as f:
+                json.dump(dict(traces=[t for t in traces if t['wd'] == wd]), f)
+            vs, stats = tlc.validate(SPEC_DIR, 'ZkMirror2Trace', cfg, path,
+                                     timeout=300 if ctx.quick else 1500, heap='4g')
+            verdicts += vs
+            ctx.cmds.append(stats['cmd'])
     finally:
         shutil.rmtree(work, ignore_errors=True)
-    ctx.cmds.append(stats['cmd'])
     total = sum(len(t['lines']) - 1 for t in traces)
     if len(verdicts) != total:
         raise tlc.MachineryError('zk2fs2: %d verdicts for %d lines' % (len(verdicts), total))
